@@ -30,6 +30,8 @@ fn gen_program(rng: &mut Rng, luau: bool) -> String {
                     0 => format!("local {} = require(\"{}\")", name, path),
                     1 => format!("local {}   =   require '{}'", name, path),
                     2 => format!("local {} = require(script.Parent.{})", name, name),
+                    // two requires on one line (a line distance of zero between the members of a group)
+                    3 if rng.chance(1, 3) => { let n2 = *rng.pick(NAMES); format!("local {} = require(\"{}\") local {} = require(\"{}0\")", name, path, n2, n2) }
                     3 => format!("local {} = require(\n\t\"{}\"\n)", name, path),
                     _ => if luau { format!("local {} = require(\"{}\") :: any", name, path) } else { format!("local {} = require(\"{}\")", name, path) },
                 }
